@@ -18,7 +18,8 @@ from .. import fsmodel
 PROP = "C15"
 FRESH_REPLAY = True      # histories may pollute process-global state of the real package
 OPS = ["evaluate_x1", "evaluate_x2", "construct_other_evaluator_cldsc", "construct_default_handler_and_evaluator", "aggregator_log_times",
-       "read_metric_keys", "aggregator_plain", "evaluate_x1_save_group_times"]
+       "read_metric_keys", "aggregator_plain", "evaluate_x1_save_group_times", "evaluate_merge_group_only_input", "other_evaluator_reads_its_keys"]
+X3 = ([0, 3, 3, 4, 0, 0, 4, 0, 0, 0], [0, 3, 3, 3, 4, 0, 0, 0, 0, 0])      # only labels of the merge group (3, 4)
 X1 = ([1, 1, 1, 0, 2, 2, 0, 0], [1, 1, 1, 1, 1, 1, 0, 2])      # pred, ref: group-1 instance with IoU 1/2, group-2 pieces
 X2 = ([0, 1, 1, 0, 0, 2, 2, 2], [1, 1, 1, 1, 1, 0, 2, 2])      # group-1 instance with IoU 2/5 (between matcher and decision threshold)
 XF = ([0, 1, 1, 1, 0, 2, 2, 0, 0, 0], [1, 1, 1, 1, 0, 0, 2, 2, 2, 2])      # final input: IoU 3/4 in group 1, 1/5..2/5 in group 2 (between matcher and decision threshold)
@@ -39,6 +40,7 @@ def cases(tier):
     L = 2 if tier == "quick" else 3
     for first in range(len(OPS)):
         out.append({"name": "history_first_%s" % OPS[first], "what": "history", "first": first, "L": L})
+    out.append({"name": "semantic_evaluator_reused_across_dimensionalities", "what": "semantic"})
     return out
 
 
@@ -90,7 +92,7 @@ def run_case(case):
 
     def make(**kw):
         # the plain group comes first: a per-call side effect of the single-instance group can only show in a LATER call
-        groups = SC.SegmentationClassGroups({"b": LG.LabelGroup(2), "a": LG.LabelGroup(1, single_instance=True)})
+        groups = SC.SegmentationClassGroups({"m": LG.LabelMergeGroup([3, 4]), "b": LG.LabelGroup(2), "a": LG.LabelGroup(1, single_instance=True)})
         return P.Panoptica_Evaluator(expected_input=P.InputType.UNMATCHED_INSTANCE, instance_matcher=P.NaiveThresholdMatching(Metric.IOU, 0.25),
                                      segmentation_class_groups=groups, decision_metric=Metric.IOU, decision_threshold=0.5, **kw)
 
@@ -99,7 +101,7 @@ def run_case(case):
 
     def run(ev, x, **kw):
         out = ev.evaluate(*arrays(x), **kw)
-        return {g: _res_dict(out[g][0]) for g in ("a", "b")}
+        return {g: _res_dict(out[g][0]) for g in ("a", "b", "m")}
 
     if case["what"] == "options":
         c = case["ctor"]
@@ -139,6 +141,47 @@ def run_case(case):
                     h.ok("options_do_not_change_metrics", _same(got[g][k], ref[g][k]), detail={"group": g, "key": k, "got": repr(got[g][k]), "default": repr(ref[g][k])})
             h.witness(expect=None)
         return explore_case(h, body, base=base, concretize_div=64, time_budget=3000)
+
+    if case["what"] == "semantic":
+        order = z3.Int("first_is_3d")
+
+        def decode_s(m):
+            return {"what": "semantic", "first_is_3d": jsonable(order, m)}
+        h = H(PROP, case["name"], decode_s, replay_kind="semantic", max_witnesses=4)
+        D3 = ([[[1, 0], [0, 1]]], (1, 2, 2))
+        D2 = ([[1, 0], [0, 1]], (2, 2))
+
+        def mk_sem():
+            return P.Panoptica_Evaluator(expected_input=P.InputType.SEMANTIC, instance_approximator=P.ConnectedComponentsInstanceApproximator(), instance_matcher=P.NaiveThresholdMatching())
+
+        def run_sem(ev, d):
+            flat = [x for row in (d[0][0] if len(d[1]) == 3 else d[0]) for x in row]
+            a = SArr(list(flat), "uint8", d[1]).protect("caller prediction")
+            b = SArr(list(flat), "uint8", d[1]).protect("caller reference")
+            r = ev.evaluate(a, b, verbose=False)["ungrouped"][0]
+            return {k: getattr(r, k) for k in ("num_ref_instances", "num_pred_instances", "tp", "fp", "fn")}
+
+        def body_s():
+            first3d = ENG.concretize(order, 0, 1) == 1
+            seq = [D3, D2] if first3d else [D2, D3]
+            try:
+                ref = run_sem(mk_sem(), seq[1])
+                cfg0 = _deep_cfg(mk_sem())
+                ev = mk_sem()
+                run_sem(ev, seq[0])
+                got = run_sem(ev, seq[1])
+            except EngineSignal:
+                raise
+            except Exception as e:
+                h.fail("operations_never_raise", detail="%s: %s" % (type(e).__name__, str(e)[:120]))
+                return
+            for k in ref:
+                h.ok("history_does_not_change_metrics", _same(got[k], ref[k]), detail={"key": k, "got": repr(got[k]), "fresh": repr(ref[k]), "first_is_3d": first3d})
+            h.ok("configuration_unchanged_through_use", _deep_cfg(ev) == cfg0, detail={"now": repr(_deep_cfg(ev))[:200]})
+            h.note_nontrivial(first3d)
+            h.note_nontrivial("semantic")
+            h.witness(expect=None)
+        return explore_case(h, body_s, base=[order >= 0, order <= 1], concretize_div=64, time_budget=3000)
 
     # ------------------------------------------------------------------ history
     L = case["L"]
@@ -189,6 +232,10 @@ def run_case(case):
                     PA.Panoptica_Aggregator(ev, "/out/b.tsv")
                 elif op == "read_metric_keys":
                     ev.resulting_metric_keys
+                elif op == "evaluate_merge_group_only_input":
+                    run(ev, X3, verbose=False)
+                elif op == "other_evaluator_reads_its_keys":
+                    P.Panoptica_Evaluator(global_metrics=[Metric.DSC]).resulting_metric_keys
         except EngineSignal:
             raise
         except WriteToProtected as e:
@@ -215,13 +262,18 @@ def run_case(case):
                 h.ok("history_does_not_change_metrics", _same(got[g][k], ref[g][k]), detail={"ops": seq, "group": g, "key": k, "got": repr(got[g][k]), "fresh": repr(ref[g][k])})
         h.ok("metric_keys_unchanged_through_use", keys1 == keys0, detail={"ops": seq, "now": keys1[-3:], "before": keys0[-3:]})
         h.ok("fresh_evaluator_metric_keys_unchanged", keys_fresh == keys0, detail={"ops": seq})
+        try:
+            wide = list(P.Panoptica_Evaluator(global_metrics=[Metric.DSC, Metric.IOU, Metric.RVD]).resulting_metric_keys)
+        except EngineSignal:
+            raise
+        except Exception as e:
+            wide = ["ERR %s" % e]
+        h.ok("advertised_keys_cover_the_requested_global_metrics", all(k in wide for k in ("global_bin_dsc", "global_bin_iou", "global_bin_rvd")), detail={"ops": seq, "keys": wide[-4:]})
         h.ok("configuration_unchanged_through_use", _cfg(ev) == repr0, detail={"ops": seq})
         h.witness(expect=None)
 
     def _cfg(e):
-        d = type(e)._yaml_repr(e)
-        return repr({k: (str(v) if not isinstance(v, (list, bool, float, int, type(None))) else ([str(x) for x in v] if isinstance(v, list) else v)) for k, v in d.items()
-                     if k not in ("segmentation_class_groups", "instance_matcher", "edge_case_handler", "instance_approximator")})
+        return _deep_cfg(e)
     return explore_case(h, body, base=base, concretize_div=64, time_budget=3000)
 
 
@@ -230,7 +282,8 @@ def _make_real(**kw):
     from panoptica import Panoptica_Evaluator, InputType, NaiveThresholdMatching, Metric
     from panoptica.utils.label_group import LabelGroup
     from panoptica.utils.segmentation_class import SegmentationClassGroups
-    groups = SegmentationClassGroups({"b": LabelGroup(2), "a": LabelGroup(1, single_instance=True)})
+    from panoptica.utils.label_group import LabelMergeGroup
+    groups = SegmentationClassGroups({"m": LabelMergeGroup([3, 4]), "b": LabelGroup(2), "a": LabelGroup(1, single_instance=True)})
     return Panoptica_Evaluator(expected_input=InputType.UNMATCHED_INSTANCE, instance_matcher=NaiveThresholdMatching(Metric.IOU, 0.25), segmentation_class_groups=groups,
                                decision_metric=Metric.IOU, decision_threshold=0.5, **kw)
 
@@ -243,7 +296,7 @@ def _run_real(ev, x, **kw):
     if not (np.array_equal(p, p0) and np.array_equal(r, r0)):
         raise RuntimeError("MUTATED")
     res = {}
-    for g in ("a", "b"):
+    for g in ("a", "b", "m"):
         d = {}
         for k in KEYS:
             try:
@@ -254,10 +307,25 @@ def _run_real(ev, x, **kw):
     return res
 
 
+def _deep_cfg(e, depth=0):
+    """nested _yaml_repr as a plain comparable structure (the saved configuration without the YAML text layer)"""
+    if depth > 6:
+        return "..."
+    if hasattr(type(e), "_yaml_repr") and not isinstance(e, type):
+        try:
+            d = type(e)._yaml_repr(e)
+        except Exception as ex:
+            return "ERR %s" % type(ex).__name__
+        return (type(e).__name__, tuple(sorted((str(k), repr(_deep_cfg(v, depth + 1))) for k, v in d.items())))
+    if isinstance(e, dict):
+        return tuple(sorted((str(k), repr(_deep_cfg(v, depth + 1))) for k, v in e.items()))
+    if isinstance(e, (list, tuple)):
+        return tuple(repr(_deep_cfg(v, depth + 1)) for v in e)
+    return str(e)
+
+
 def _cfg_real(e):
-    d = type(e)._yaml_repr(e)
-    return repr({k: (str(v) if not isinstance(v, (list, bool, float, int, type(None))) else ([str(x) for x in v] if isinstance(v, list) else v)) for k, v in d.items()
-                 if k not in ("segmentation_class_groups", "instance_matcher", "edge_case_handler", "instance_approximator")})
+    return _deep_cfg(e)
 
 
 def _eq(a, b):
@@ -319,6 +387,10 @@ def real_history(case, mode, expect):
                     Panoptica_Aggregator(ev, os.path.join(tmp, "b.tsv"))
                 elif op == "read_metric_keys":
                     ev.resulting_metric_keys
+                elif op == "evaluate_merge_group_only_input":
+                    _run_real(ev, X3, verbose=False)
+                elif op == "other_evaluator_reads_its_keys":
+                    Panoptica_Evaluator(global_metrics=[Metric.DSC]).resulting_metric_keys
             got = _run_real(ev, XF, verbose=False)
         except Exception as e:
             return {"match": True, "violates": True, "reason": ("no_input_mutation" if str(e) == "MUTATED" else "operations_never_raise") + ": %s: %s: %s" % (case["ops"], type(e).__name__, str(e)[:120]), "observed": None}
@@ -330,6 +402,10 @@ def real_history(case, mode, expect):
             bad = "metric_keys_unchanged_through_use: after %s the advertised keys end with %s (before: %s)" % (case["ops"], list(ev.resulting_metric_keys)[-2:], keys0[-2:])
         if bad is None and list(_make_real().resulting_metric_keys) != keys0:
             bad = "fresh_evaluator_metric_keys_unchanged: after %s" % (case["ops"],)
+        if bad is None:
+            wide = list(Panoptica_Evaluator(global_metrics=[Metric.DSC, Metric.IOU, Metric.RVD]).resulting_metric_keys)
+            if not all(k in wide for k in ("global_bin_dsc", "global_bin_iou", "global_bin_rvd")):
+                bad = "advertised_keys_cover_the_requested_global_metrics: after %s an evaluator with global metrics DSC/IOU/RVD advertises %s" % (case["ops"], wide[-4:])
         if bad is None and _cfg_real(ev) != _cfg_real(ev0.__class__ and _make_real()):
             bad = "configuration_unchanged_through_use: after %s the saved configuration is %s, a fresh evaluator has %s" % (case["ops"], _cfg_real(ev), _cfg_real(_make_real()))
     finally:
@@ -337,4 +413,31 @@ def real_history(case, mode, expect):
     return {"match": True, "violates": bad is not None, "reason": bad, "observed": None}
 
 
-REAL = {"options": real_options, "history": real_history}
+def real_semantic(case, mode, expect):
+    import numpy as np
+    from panoptica import Panoptica_Evaluator, InputType, NaiveThresholdMatching, ConnectedComponentsInstanceApproximator
+    from . import realcommon as RC
+    RC.use_serial_pool(True)
+    d3, d2 = np.array([[[1, 0], [0, 1]]], dtype=np.uint8), np.array([[1, 0], [0, 1]], dtype=np.uint8)
+    seq = [d3, d2] if case["first_is_3d"] else [d2, d3]
+
+    def mk():
+        return Panoptica_Evaluator(expected_input=InputType.SEMANTIC, instance_approximator=ConnectedComponentsInstanceApproximator(), instance_matcher=NaiveThresholdMatching())
+
+    def run(ev, a):
+        r = ev.evaluate(a.copy(), a.copy(), verbose=False)["ungrouped"][0]
+        return {k: getattr(r, k) for k in ("num_ref_instances", "num_pred_instances", "tp", "fp", "fn")}
+    ref = run(mk(), seq[1])
+    cfg0 = _deep_cfg(mk())
+    ev = mk()
+    run(ev, seq[0])
+    got = run(ev, seq[1])
+    bad = None
+    if got != ref:
+        bad = "history_does_not_change_metrics: after a %d-D input the same evaluator reports %s for the next input, a fresh one %s" % (seq[0].ndim, got, ref)
+    elif _deep_cfg(ev) != cfg0:
+        bad = "configuration_unchanged_through_use: %s" % (repr(_deep_cfg(ev))[:200],)
+    return {"match": True, "violates": bad is not None, "reason": bad, "observed": None}
+
+
+REAL = {"options": real_options, "history": real_history, "semantic": real_semantic}
